@@ -97,3 +97,106 @@ def components(nodes, pairs):
   for n in nodes:
     cl.setdefault(find(n), set()).add(n)
   return set(frozenset(v) for v in cl.values())
+
+
+# ---- A6: linear paths and merging -----------------------------------------
+COMP = {"A": "T", "C": "G", "G": "C", "T": "A", "a": "t", "c": "g", "g": "c", "t": "a", "N": "N", "n": "n"}
+
+def revcomp(s):
+  return "".join(COMP.get(c, c) for c in reversed(s))
+
+def link_incidences(link):
+  """link = (f, fo, t, to, k) -> ((f, end), (t, end))"""
+  f, fo, t, to = link[:4]
+  e1, e2 = l_ends(fo, to)
+  return (f, e1), (t, e2)
+
+def linear_chains(segments, links):
+  """maximal chains (>= 2 segments) of segments joined by dovetails that are the only dovetail on both
+  joined ends.  -> list of chains; a chain is a list of (segment, entered_through_end) plus a flag 'cyclic'.
+  Chains are returned in one of their two directions (compare modulo reversal / rotation)."""
+  deg = {}
+  for l in links:
+    for inc in link_incidences(l):
+      deg[inc] = deg.get(inc, 0) + 1
+  nxt = {}          # segment end -> (other segment end, link) over linear junctions
+  for l in links:
+    a, b = link_incidences(l)
+    if deg[a] == 1 and deg[b] == 1 and a != b:
+      nxt[a] = (b, l); nxt[b] = (a, l)
+  other = {"L": "R", "R": "L"}
+  seen, chains = set(), []
+  def walk(start_seg, leave_end):
+    """walk leaving start_seg through leave_end; -> list of (seg, entered_end), closed?"""
+    out = []
+    cur = (start_seg, leave_end)
+    while cur in nxt:
+      (s2, e2), l = nxt[cur]
+      if s2 == start_seg:
+        return out, True
+      out.append((s2, e2, l))
+      cur = (s2, other[e2])
+    return out, False
+  for s in segments:
+    if s in seen: continue
+    right, closed = walk(s, "R")
+    if closed:
+      chain = [(s, "L", None)] + right
+      cyc = True
+    else:
+      left, _ = walk(s, "L")
+      # left walk leaves through L: reverse it so that the chain reads left-to-right
+      chain = [(x[0], other[x[1]], None) for x in reversed(left)] + [(s, "L", None)] + right
+      cyc = False
+    for x in chain: seen.add(x[0])
+    if len(chain) >= 2:
+      chains.append(([(x[0], x[1]) for x in chain], cyc))
+  return chains
+
+def chain_key(chain, cyc):
+  """canonical form of a chain modulo reversal (and rotation for cycles): as a set of unoriented names for
+  cycles, a direction-free tuple for paths"""
+  names = [x[0] for x in chain]
+  if cyc:
+    return ("cycle", tuple(sorted(names)), len(names))
+  fwd = tuple((s, e) for s, e in chain)
+  other = {"L": "R", "R": "L"}
+  bwd = tuple((s, other[e]) for s, e in reversed(chain))
+  return ("path", min(fwd, bwd))
+
+def dedup_links(links):
+  """a link and its exact complement are one edge (C12): keep the first spelling"""
+  out, seen = [], set()
+  for l in links:
+    f, fo, t, to, k = l
+    a = (f, fo, t, to, k); b = (t, INV[to], f, INV[fo], k)      # M-only / '*' overlaps are their own complement
+    if a in seen or b in seen: continue
+    seen.add(a); out.append(l)
+  return out
+
+def spell_chain(chain, links, seq):
+  """-> spelled sequence (None if any member has no sequence), total length"""
+  deg_links = {}
+  for l in links:
+    a, b = link_incidences(l)
+    deg_links.setdefault(a, []).append(l); deg_links.setdefault(b, []).append(l)
+  other = {"L": "R", "R": "L"}
+  out = ""
+  for i, (s, entered) in enumerate(chain):
+    sq = seq[s]
+    if sq is None: return None
+    o = sq if entered == "L" else revcomp(sq)
+    if i > 0:
+      prev_exit = (chain[i - 1][0], other[chain[i - 1][1]])
+      ls = [l for l in deg_links.get(prev_exit, [])]
+      k = ls[0][4]
+      o = o[k:]
+    out += o
+  return out
+
+def merged_graph(segments, links, seq):
+  """expected result of merging all linear chains: -> (dict name->set of acceptable sequences,
+  list of acceptable link multisets is too loose; instead returns a function that maps an old incidence to the
+  new one given the orientation choice per chain)"""
+  chains = linear_chains(segments, links)
+  return chains
